@@ -106,18 +106,26 @@ package action
 //@   requires cfg != nil && cfg.KubeClient != nil && rl != nil && hooksNonNil(rl.Hooks)
 //@   requires [none-in-flight] forall m string :: !Kunwatched[m]
 //@   ensures [gate] result == nil ==> forall m string :: !Kunwatched[m]
+//@   ensures [hooks-kept] len(rl.Hooks) == old(len(rl.Hooks)) && (forall j int :: 0 <= j && j < len(rl.Hooks) ==> rl.Hooks[j] == old(rl.Hooks[j]))
+//@   ensures [config-kept] cfg.KubeClient == old(cfg.KubeClient) && cfg.Releases == old(cfg.Releases)
 //@   loop 1 invariant [sel] hooksNonNil(executingHooks) && (forall j int :: 0 <= j && j < len(executingHooks) ==> hasEvent(executingHooks[j], hook))
 //@   loop 1 invariant [quiet1] forall m string :: !Kunwatched[m]
+//@   loop 1 invariant [own-array1] fresh(executingHooks)
 //@   loop 1 invariant [src] hooksNonNil(rl.Hooks)
 //@   loop 2 invariant [sel] hooksNonNil(executingHooks) && (forall j int :: 0 <= j && j < len(executingHooks) ==> hasEvent(executingHooks[j], hook))
 //@   loop 2 invariant [quiet2] forall m string :: !Kunwatched[m]
+//@   loop 2 invariant [own-array2] fresh(executingHooks)
 //@   loop 2 invariant [h] h != nil
 //@   loop 3 invariant [nonnil] hooksNonNil(executingHooks)
+//@   loop 3 invariant [hooks-kept3] len(rl.Hooks) == old(len(rl.Hooks)) && (forall j int :: 0 <= j && j < len(rl.Hooks) ==> rl.Hooks[j] == old(rl.Hooks[j]))
+//@   loop 3 invariant [config-kept3] cfg.KubeClient == old(cfg.KubeClient) && cfg.Releases == old(cfg.Releases)
 //@   loop 3 invariant [selected] forall j int :: 0 <= j && j < len(executingHooks) ==> hasEvent(executingHooks[j], hook)
 //@   loop 3 invariant [weight-order] weightOrdered(executingHooks)
 //@   loop 3 invariant [one-at-a-time] forall m string :: !Kunwatched[m]
 //@   loop 3 invariant [default-policy] forall j int :: 0 <= j && j < #iter ==> len(executingHooks[j].DeletePolicies) > 0
 //@   loop 4 invariant [quiet4] forall m string :: !Kunwatched[m]
+//@   loop 4 invariant [hooks-kept4] len(rl.Hooks) == old(len(rl.Hooks)) && (forall j int :: 0 <= j && j < len(rl.Hooks) ==> rl.Hooks[j] == old(rl.Hooks[j]))
+//@   loop 4 invariant [config-kept4] cfg.KubeClient == old(cfg.KubeClient) && cfg.Releases == old(cfg.Releases)
 //@   loop 4 invariant [nonnil4] hooksNonNil(executingHooks) && i < len(executingHooks)
 
 // ---- C13: value reuse policy (upgrade.go)
@@ -144,7 +152,7 @@ package action
 
 //@ func (*Install).RunWithContext
 //@   props C06
-//@   requires i != nil && cfgReady(i.cfg) && chrt != nil && ledgerWF()
+//@   requires i != nil && cfgReady(i.cfg) && chrt != nil && ledgerWF() && atMostOneDeployed(i.ReleaseName)
 //@   ensures [dry-run-no-cluster-mutation] old(installDryRun(i)) ==> Kmutated == old(Kmutated)
 //@   ensures [dry-run-no-storage-write] old(installDryRun(i)) ==> Dwritten == old(Dwritten)
 
@@ -189,7 +197,7 @@ package action
 //@   ensures [prepare-no-cluster-mutation] Kmutated == old(Kmutated)
 //@   ensures [prepare-no-storage-write] Dwritten == old(Dwritten)
 //@   ensures [selector-unchanged] r.DryRun == old(r.DryRun)
-//@   ensures [results] result2 == nil ==> result0 != nil && result1 != nil && result1.Info != nil
+//@   ensures [results] result2 == nil ==> result0 != nil && result0.Info != nil && result1 != nil && result1.Info != nil && hooksNonNil(result1.Hooks)
 
 //@ func (*Rollback).Run
 //@   props C06
